@@ -47,85 +47,116 @@ static Verdict run_step(const Case &c) {
     return v;
 }
 
-// part 1: histories through the Darwin frame flow + ticks. ops: kind 1 frame (a: opcode), 2 advance (a: seconds), 3 tick
+// part 1: histories through the Darwin frame flow + ticks, on one to three interfaces side by side (each daemon thread owns its engine).
+// cfg: [0]=1 [1] engines ; ops: kind 1 frame (a: opcode, engine), 2 advance (a: seconds), 3 tick (a: engine, or -1: every engine in turn)
 static void noop_hello(void *) {}
+struct Eng {
+    br_darwin d{};
+    IfCfg ic;
+    int ifi = 0;
+    int st = 0;                 // model state (refined by observation where the statement allows two outcomes)
+    uint64_t last_input = 0;    // time of the last mapping input (frame, or tick-driven timeout event)
+    int64_t last_frame = -1;    // time of the last received frame; -1: none since the last tick-driven session end
+    unsigned ctc = 0; int64_t charge_deadline = -1;
+};
 static Verdict run_hist(const Case &c) {
     Verdict v;
     World w;
-    IfCfg ic;
-    int ifi = w.add_if(ic);
-    br_darwin d{};
-    memcpy(d.mac, ic.mac.b, 6);
-    d.ctx = w.ctx(ifi); d.send_hello = noop_hello; d.user = nullptr; d.call_parse_frame = 1;
+    int k = (int)std::max<int64_t>(1, std::min<int64_t>(c.c(1, 1), 3));
     uint64_t now = 50;   // seconds
     vp_set_now_ms(now * 1000);
-    if (br_darwin_init(&d) != 0) { v.fail("constructors failed"); return v; }
-    int t1 = br_aut_timeout(d.mapping, 1), t2 = br_aut_timeout(d.mapping, 2);
-    int st = 0;                 // model state (refined by observation where the statement allows two outcomes)
-    uint64_t last_input = now;  // time of the last mapping input (frame, or tick-driven timeout event)
-    int64_t last_frame = -1;    // time of the last received frame; -1: none since the last tick-driven session end
-    unsigned ctc = 0; int64_t charge_deadline = -1;
-    int tick_ends = 0, early_ticks = 0;
+    std::vector<Eng> E((size_t)k);
+    for (int x = 0; x < k; x++) {
+        Eng &e = E[(size_t)x];
+        e.ic.mac = mac_from_u64(0x020000000001ULL + (uint64_t)x);
+        e.ifi = w.add_if(e.ic);
+        memcpy(e.d.mac, e.ic.mac.b, 6);
+        e.d.ctx = w.ctx(e.ifi); e.d.send_hello = noop_hello; e.d.user = nullptr; e.d.call_parse_frame = 1;
+        e.last_input = now;
+        if (br_darwin_init(&e.d) != 0) { v.fail("constructors failed"); for (int y = 0; y < x; y++) br_darwin_destroy(&E[(size_t)y].d); return v; }
+    }
+    int t1 = br_aut_timeout(E[0].d.mapping, 1), t2 = br_aut_timeout(E[0].d.mapping, 2);
+    int tick_ends = 0, early_ticks = 0, ends_beside_active = 0;
     Mac m = {{2, 0xAA, 0, 0, 0, 1}};
+    auto others_unmoved = [&](size_t i, int x) {
+        for (int y = 0; y < k && v.ok; y++)
+            if (y != x && br_aut_state(E[(size_t)y].d.mapping) != E[(size_t)y].st)
+                v.fail(fmt("step %zu: input for interface %d moved the mapping engine of interface %d from state %d to %d", i, x, y, E[(size_t)y].st, br_aut_state(E[(size_t)y].d.mapping)));
+    };
+    auto tick_one = [&](size_t i, int x) {
+        Eng &e = E[(size_t)x];
+        br_darwin &d = e.d;
+        int before = br_aut_state(d.mapping);
+        br_darwin_idle_tick(&d);
+        (void)drain_log();
+        int got = br_aut_state(d.mapping);
+        br_mapst ms; br_mapst_get(br_aut_extra(d.mapping), &ms);
+        if (e.last_frame >= 0) {
+            int64_t silent = (int64_t)now - e.last_frame;
+            if (silent >= 31 || (silent == 30 && got == 0 && ms.inactive_ts == 0 && before != 0)) {
+                if (silent >= 31) {
+                    if (got != 0) v.fail(fmt("step %zu: interface %d: %lld s without a frame, tick left mapping state %d", i, x, (long long)silent, got));
+                    else if (ms.ctc != 0 || ms.charge_ts != 0) v.fail(fmt("step %zu: interface %d: tick ended the session but charge counter is %u (deadline %llu)", i, x, ms.ctc, (unsigned long long)ms.charge_ts));
+                    else if (!br_st_is_empty(d.table)) v.fail(fmt("step %zu: interface %d: tick ended the session but the session table still holds %u entries", i, x, br_st_count(d.table)));
+                }
+                if (v.ok) {
+                    if (e.st != 0) { tick_ends++; for (int y = 0; y < k; y++) if (y != x && E[(size_t)y].st != 0) { ends_beside_active++; break; } }
+                    e.st = 0; e.ctc = 0; e.charge_deadline = -1; e.last_frame = -1; e.last_input = now;
+                }
+            } else if (silent == 30) {
+                // exactly 30 s: either outcome is accepted; follow the implementation
+                if (ms.inactive_ts == 0) { e.st = 0; e.ctc = 0; e.charge_deadline = -1; e.last_frame = -1; e.last_input = now; if (got != 0) v.fail(fmt("step %zu: inactivity deadline consumed but state is %d", i, got)); }
+                else if (got != before) v.fail(fmt("step %zu: tick changed the mapping state %d -> %d without ending the session", i, before, got));
+            } else {
+                early_ticks++;
+                if (got != before) v.fail(fmt("step %zu: tick %lld s after the last frame changed the mapping state %d -> %d", i, (long long)silent, before, got));
+            }
+        } else if (got != before) v.fail(fmt("step %zu: tick without any frame changed the mapping state %d -> %d", i, before, got));
+        if (v.ok && e.charge_deadline >= 0 && (int64_t)now >= e.charge_deadline) { e.ctc = 0; e.charge_deadline = -1; }
+        if (v.ok) {
+            br_mapst_get(br_aut_extra(d.mapping), &ms);
+            if (ms.ctc != e.ctc) v.fail(fmt("step %zu: interface %d: charge counter %u, expected %u", i, x, ms.ctc, e.ctc));
+        }
+        if (v.ok) others_unmoved(i, x);
+    };
     for (size_t i = 0; i < c.ops.size() && v.ok; i++) {
         const Op &op = c.ops[i];
         if (op.kind == 2) { now += (uint64_t)std::max<int64_t>(0, std::min<int64_t>(op.arg(0), 200)); vp_set_now_ms(now * 1000); continue; }
         if (op.kind == 1) {
+            int x = (int)(((op.arg(1) % k) + k) % k);
+            Eng &e = E[(size_t)x];
             int opc = (int)op.arg(0) & 0xFF;
-            Bytes f = opc == 0 ? mk_discover(m, m, 0, 1, 1, {}) : mk_simple(ic.mac, m, 0, (uint8_t)opc, ic.mac, m, 1);
+            Bytes f = opc == 0 ? mk_discover(m, m, 0, 1, 1, {}) : mk_simple(e.ic.mac, m, 0, (uint8_t)opc, e.ic.mac, m, 1);
             uint8_t *tf;
-            uint8_t *b = w.stage(ifi, f, CLEAN, &tf);
-            br_darwin_rx(&d, b, f.size());
+            uint8_t *b = w.stage(e.ifi, f, CLEAN, &tf);
+            br_darwin_rx(&e.d, b, f.size());
             free(tf);
             (void)drain_log();
-            int tmo = st == 1 ? t1 : st == 2 ? t2 : 0;
-            int got = br_aut_state(d.mapping);
-            if (st != 0 && (int64_t)(now - last_input) > tmo) {
-                if (!(got == 0 || (got == 1 && opc == 0))) v.fail(fmt("step %zu: state %d idle for %llu s (timeout %d), frame opcode %d: state %d", i, st, (unsigned long long)(now - last_input), tmo, opc, got));
+            int tmo = e.st == 1 ? t1 : e.st == 2 ? t2 : 0;
+            int got = br_aut_state(e.d.mapping);
+            if (e.st != 0 && (int64_t)(now - e.last_input) > tmo) {
+                if (!(got == 0 || (got == 1 && opc == 0))) v.fail(fmt("step %zu: state %d idle for %llu s (timeout %d), frame opcode %d: state %d", i, e.st, (unsigned long long)(now - e.last_input), tmo, opc, got));
             } else {
-                int want = table_next(st, opc > 127 ? 999 : opc);
-                if (got != want) v.fail(fmt("step %zu: state %d, frame opcode %d: state %d, expected %d", i, st, opc, got, want));
+                int want = table_next(e.st, opc > 127 ? 999 : opc);
+                if (got != want) v.fail(fmt("step %zu: state %d, frame opcode %d: state %d, expected %d", i, e.st, opc, got, want));
             }
-            st = got;
-            last_input = now; last_frame = (int64_t)now;
-            if (opc == 9) { ctc = (ctc + 1) & 0xFF; charge_deadline = (int64_t)now + 1; }
+            e.st = got;
+            e.last_input = now; e.last_frame = (int64_t)now;
+            if (opc == 9) { e.ctc = (e.ctc + 1) & 0xFF; e.charge_deadline = (int64_t)now + 1; }
             // the trailing tick of the frame flow runs at the same instant: cannot end the session (0 s since this frame) but may reset an old charge
-            if (charge_deadline >= 0 && (int64_t)now >= charge_deadline && opc != 9) { ctc = 0; charge_deadline = -1; }
+            if (e.charge_deadline >= 0 && (int64_t)now >= e.charge_deadline && opc != 9) { e.ctc = 0; e.charge_deadline = -1; }
+            if (v.ok) others_unmoved(i, x);
         } else if (op.kind == 3) {
-            int before = br_aut_state(d.mapping);
-            br_darwin_idle_tick(&d);
-            (void)drain_log();
-            int got = br_aut_state(d.mapping);
-            br_mapst ms; br_mapst_get(br_aut_extra(d.mapping), &ms);
-            if (last_frame >= 0) {
-                int64_t silent = (int64_t)now - last_frame;
-                if (silent >= 31 || (silent == 30 && got == 0 && ms.inactive_ts == 0 && before != 0)) {
-                    if (silent >= 31) {
-                        if (got != 0) v.fail(fmt("step %zu: %lld s without a frame, tick left mapping state %d", i, (long long)silent, got));
-                        else if (ms.ctc != 0 || ms.charge_ts != 0) v.fail(fmt("step %zu: tick ended the session but charge counter is %u (deadline %llu)", i, ms.ctc, (unsigned long long)ms.charge_ts));
-                        else if (!br_st_is_empty(d.table)) v.fail(fmt("step %zu: tick ended the session but the session table still holds %u entries", i, br_st_count(d.table)));
-                    }
-                    if (v.ok) { if (st != 0) tick_ends++; st = 0; ctc = 0; charge_deadline = -1; last_frame = -1; last_input = now; }
-                } else if (silent == 30) {
-                    // exactly 30 s: either outcome is accepted; follow the implementation
-                    if (ms.inactive_ts == 0) { st = 0; ctc = 0; charge_deadline = -1; last_frame = -1; last_input = now; if (got != 0) v.fail(fmt("step %zu: inactivity deadline consumed but state is %d", i, got)); }
-                    else if (got != before) v.fail(fmt("step %zu: tick changed the mapping state %d -> %d without ending the session", i, before, got));
-                } else {
-                    early_ticks++;
-                    if (got != before) v.fail(fmt("step %zu: tick %lld s after the last frame changed the mapping state %d -> %d", i, (long long)silent, before, got));
-                }
-            } else if (got != before) v.fail(fmt("step %zu: tick without any frame changed the mapping state %d -> %d", i, before, got));
-            if (v.ok && charge_deadline >= 0 && (int64_t)now >= charge_deadline) { ctc = 0; charge_deadline = -1; }
-            if (v.ok) {
-                br_mapst_get(br_aut_extra(d.mapping), &ms);
-                if (ms.ctc != ctc) v.fail(fmt("step %zu: charge counter %u, expected %u", i, ms.ctc, ctc));
-            }
+            if (op.arg(0) < 0) { for (int x = 0; x < k && v.ok; x++) tick_one(i, x); }
+            else tick_one(i, (int)(op.arg(0) % k));
         }
     }
-    br_darwin_destroy(&d);
+    for (int x = 0; x < k; x++) br_darwin_destroy(&E[(size_t)x].d);
     v.nontrivial = tick_ends > 0;
     if (tick_ends) v.cls("tick-driven-session-end");
+    if (ends_beside_active) v.cls("session-end-while-another-interface-is-active");
     if (early_ticks) v.cls("early-tick");
+    v.cls(fmt("engines=%d", k));
     return v;
 }
 
@@ -139,6 +170,9 @@ static Verdict run_tick30(const Case &c) {
     void *a = fresh(st), *t = br_st_create();
     void *ms = br_aut_extra(a);
     for (int i = 0; i < nsess; i++) { Mac m = mac_from_u64(0x02AA00000000ULL + (uint64_t)i); br_st_add(t, m.b, 1, 1); }
+    int64_t gone = c.c(5, 0);   // sessions that ended earlier (bit i: the i-th one was removed again), so the table has gaps
+    int live = 0;
+    for (int i = 0; i < nsess; i++) { Mac m = mac_from_u64(0x02AA00000000ULL + (uint64_t)i); if ((gone >> i) & 1) br_st_remove(t, m.b, 1); else live++; }
     for (int i = 0; i < charges; i++) br_mapping_on_charge(ms);
     br_mapping_reset_inactive_timeout(ms);                 // "a frame was received now"
     vp_set_now_ms(100000 + (uint64_t)silence * 1000);
@@ -151,14 +185,22 @@ static Verdict run_tick30(const Case &c) {
         if (got != 0) v.fail(fmt("state %d, %lld s without a frame: the tick left the mapping state %d", st, (long long)silence, got));
         else if (m2.ctc != 0 || m2.charge_ts != 0) v.fail(fmt("%lld s without a frame: charge counter still %u", (long long)silence, m2.ctc));
         else if (!br_st_is_empty(t)) v.fail(fmt("mapping state %d, %lld s without a frame: the session table still holds %u session(s) after the tick", st, (long long)silence, br_st_count(t)));
+        else {   // empty means empty: no session can be looked up any more, no slot is in use
+            for (int i = 0; i < nsess && v.ok; i++) {
+                Mac m = mac_from_u64(0x02AA00000000ULL + (uint64_t)i);
+                if (br_st_find(t, m.b, 1, 1)) v.fail(fmt("%lld s without a frame: the table reports empty but session %d of %d (sessions removed earlier: mask 0x%llx) can still be looked up", (long long)silence, i, nsess, (unsigned long long)gone));
+            }
+            for (int i = 0; i < br_st_capacity() && v.ok; i++) { br_entry e; br_st_get(t, i, &e); if (e.valid) v.fail(fmt("%lld s without a frame: the table reports empty but slot %d is still in use", (long long)silence, i)); }
+        }
     } else if (silence <= 29) {
         if (got != before) v.fail(fmt("tick %lld s after the last frame changed the mapping state %d -> %d", (long long)silence, before, got));
-        else if ((int)br_st_count(t) != nsess) v.fail(fmt("tick %lld s after the last frame emptied the session table", (long long)silence));
+        else if ((int)br_st_count(t) != live) v.fail(fmt("tick %lld s after the last frame emptied the session table", (long long)silence));
         else if (silence == 0 && (int)m2.ctc != charges) v.fail("tick at the instant of the charge reset the counter");
     }
     br_st_destroy(t);
     br_automata_destroy(a);
     v.nontrivial = silence >= 31 && (nsess > 0 || charges > 0 || st != 0);
+    if (gone && live) v.cls("tick30-table-with-gaps");
     v.cls(silence >= 31 ? "tick30-must-end" : silence <= 29 ? "tick30-must-not-end" : "tick30-boundary");
     return v;
 }
@@ -172,7 +214,7 @@ int main(int argc, char **argv) {
     Current::install(a.failing);
     Evidence ev;
     ev.rule = "(1) exhaustive single steps: 3 states x inputs -128..255 x elapsed {0, t-1, t, t+1, 10t} s (Idle: {0,1,5,31,300}) from a fresh automaton driven into the start state by legal inputs, "
-              "judged by the transition table of the statement. (1b) the 30 s rule through the primitive API: 3 states x {0,1,16} sessions x {0,3} charges x silence {0,1,29,30,31,45,60,61,120} s. (2) random histories of frames (all opcodes)/whole-second clock advances/ticks through the transcribed Darwin frame flow: state after each frame, "
+              "judged by the transition table of the statement. (1b) the 30 s rule through the primitive API: 3 states x {0,1,5,16} sessions (none / the first / every other / all but the last removed again beforehand) x {0,3} charges x silence {0,1,29,30,31,45,60,61,120} s; an emptied table has no session that can be looked up and no slot in use. (2) random histories of frames (all opcodes)/whole-second clock advances/ticks through the transcribed Darwin frame flow on one to three interfaces side by side (one engine each; an input for one never moves another): state after each frame, "
               "tick-driven session end after >= 31 s of silence (state Idle, charge counter 0, session table empty), no state change by earlier ticks, charge counter bookkeeping. "
               "non-trivial = step whose expected state differs or a timeout boundary; histories: >= 1 tick-driven session end; distinct = digest of the case";
     bool ok = true;
@@ -198,9 +240,9 @@ int main(int argc, char **argv) {
             }
         ev.extra["single_steps_exhaustive"] = "true";
         // the 30 s rule through the primitive API: every start state x table filling x charge count x silence
-        for (int st = 0; st < 3 && ok; st++) for (int ns : {0, 1, 16}) for (int ch : {0, 3}) for (int sil : {0, 1, 29, 30, 31, 45, 60, 61, 120}) {
-            if (!ok || k++ % a.nshards != a.shard) continue;
-            Case c; c.cfg = {2, st, ns, ch, sil};
+        for (int st = 0; st < 3 && ok; st++) for (int ns : {0, 1, 5, 16}) for (int ch : {0, 3}) for (int sil : {0, 1, 29, 30, 31, 45, 60, 61, 120}) for (int64_t gone : {(int64_t)0, (int64_t)1, (int64_t)0x5555, (int64_t)((1 << std::max(0, ns - 1)) - 1)}) {
+            if (!ok || (gone != 0 && ns < 2) || k++ % a.nshards != a.shard) continue;
+            Case c; c.cfg = {2, st, ns, ch, sil, gone};
             CurrentScope scope(c);
             Verdict v = run(c);
             ev.note(c.digest(), v.nontrivial && v.ok, [&] { return c.to_text(); });
@@ -210,14 +252,14 @@ int main(int argc, char **argv) {
     }
     if (ok) {
         auto gen = rc::gen::exec([] {
-            Case c; c.cfg = {1};
+            Case c; c.cfg = {1, *gx::pick({1, 1, 2, 2, 3})};
             int n = *gx::range<int>(1, 60);
             c.ops = *rc::gen::resize(n, rc::gen::container<std::vector<Op>>(rc::gen::exec([] {
                 Op o;
                 int k = *gx::range<int>(0, 9);
-                if (k <= 4) { o.kind = 1; o.a = {*gx::weighted<int64_t>({{6, gx::pick({0, 2, 8, 9, 4, 6, 11})}, {2, gx::range<int64_t>(0, 12)}, {1, gx::range<int64_t>(0, 255)}})}; }
+                if (k <= 4) { o.kind = 1; o.a = {*gx::weighted<int64_t>({{6, gx::pick({0, 2, 8, 9, 4, 6, 11})}, {2, gx::range<int64_t>(0, 12)}, {1, gx::range<int64_t>(0, 255)}}), *gx::range<int64_t>(0, 2)}; }
                 else if (k <= 7) { o.kind = 2; o.a = {*gx::bnd({0, 1, 4, 5, 6, 29, 30, 31, 60, 61}, 0, 120, 3, 1)}; }
-                else o.kind = 3;
+                else { o.kind = 3; o.a = {*gx::pick({-1, -1, 0, 1, 2})}; }
                 return o;
             })));
             return c;
